@@ -236,12 +236,15 @@ package tree
 //@ fn buildMethodIndexes
 //@   noglobals
 //@   requires methodIndexes != nil && methodIndexMap != nil
+//@   modifies []string:
 //@   ensures [C04,C07] present: in(index, methodIndexes)
 //@   ensures [C07] read-only-when-present: old(in(index, methodIndexes)) ==> dom(methodIndexes) == old(dom(methodIndexes)) && vals(methodIndexes) == old(vals(methodIndexes))
 //@   ensures [C04,C07] others-kept: forall j int :: j != index && old(in(j, methodIndexes)) ==> in(j, methodIndexes) && methodIndexes[j] == old(methodIndexes[j])
+//@   inv 1 [C07] fresh: fresh(methods) && unchangedMaps("[]string")
 //
 //@ fn node.buildMethods
 //@   requires n != nil && n.root != nil && (n.root.hasTrace ==> !in("TRACE", n.handlers))
+//@   modifies []string:
 //@   ensures [C04] mask: n.methodIndex == maskOf(dom(n.handlers)) + ((n.root.hasTrace && len(n.handlers) > 0) ? 64 : 0)
 //@   ensures [C04] empty: len(n.handlers) == 0 ==> n.methodIndex == 0
 //@   ensures [C07] memo-read-only: dom(methodIndexes) == old(dom(methodIndexes)) && vals(methodIndexes) == old(vals(methodIndexes))
@@ -282,3 +285,27 @@ package tree
 //@   inv 2 [C17] all-valid: forall i int :: 0 <= i && i < len(methods) ==> !reserved(n, methods[i]) && bit(methods[i]) != 0
 //@   inv 2 [C08] so-far: (forall i int :: 0 <= i && i <= rangeindex ==> in(methods[i], n.handlers)) && (forall k string :: old(in(k, n.handlers)) ==> in(k, n.handlers))
 //@   inv 2 [C08] head: (in("HEAD", n.handlers) <==> in("GET", n.handlers)) && (n.root.hasTrace ==> !in("TRACE", n.handlers))
+
+//@ fn Tree.buildMethods
+//@   requires tree != nil && tree.node != nil && tree.methods != nil
+//@   modifies []string:
+//@   ensures [C07] memo-read-only: dom(methodIndexes) == old(dom(methodIndexes)) && vals(methodIndexes) == old(vals(methodIndexes))
+//@   atcall tree.buildMethodIndexes [C07] present: in(arg0, methodIndexes)
+//@   inv 1 bound: -1 <= rangeindex && rangeindex < len(methods)
+
+// init: the method tables are built here and nowhere else
+//@ pred methodsTable() = len(Methods) == 9 && Methods[0] == "GET" && Methods[1] == "POST" && Methods[2] == "DELETE" && Methods[3] == "PUT" &&
+//@      Methods[4] == "PATCH" && Methods[5] == "CONNECT" && Methods[6] == "TRACE" && Methods[7] == "HEAD" && Methods[8] == "OPTIONS"
+//@ pred pow2(j int) = (j == 0) ? 1 : ((j == 1) ? 2 : ((j == 2) ? 4 : ((j == 3) ? 8 : ((j == 4) ? 16 : ((j == 5) ? 32 : ((j == 6) ? 64 : ((j == 7) ? 128 : 256)))))))
+//
+//@ fn init#1
+//@   requires methodsTable() && methodIndexes != nil
+//@   ensures [C04,C07] mim-nonnil: methodIndexMap != nil && methodIndexes != nil
+//@   ensures [C04,C07] mim-vals: forall k string :: methodIndexMap[k] == bit(k)
+//@   ensures [C04,C07] mim-dom: forall k string :: in(k, methodIndexMap) <==> bit(k) != 0
+//@   ensures [C04,C07] memo-total: forall i int :: 0 <= i && i < 512 ==> in(i, methodIndexes)
+//@   inv 1 [C04] bound: -1 <= rangeindex && rangeindex < 9 && methodIndexMap != nil && methodsTable() && methodIndexes != nil
+//@   inv 1 [C04] filled: forall j int :: 0 <= j && j <= rangeindex ==> in(Methods[j], methodIndexMap) && methodIndexMap[Methods[j]] == pow2(j)
+//@   inv 1 [C04] only: forall k string :: in(k, methodIndexMap) ==> (exists j int :: 0 <= j && j <= rangeindex && Methods[j] == k)
+//@   inv 2 [C04,C07] tables: methodIndexMap != nil && methodIndexes != nil && (forall k string :: methodIndexMap[k] == bit(k)) && (forall k string :: in(k, methodIndexMap) <==> bit(k) != 0)
+//@   inv 2 [C04,C07] memo: 0 <= rangeint && rangeint < 512 && (forall j int :: 0 <= j && j < rangeint ==> in(j, methodIndexes))
